@@ -70,8 +70,8 @@ def gen_cases(rng, g, per_graph=18, setups=None):
         out += [[p["name"], p["version"], False, False, f, [], False, "tag:" + t] for p in g["products"] for f in (False, True)
                 for t in p.get("tags", []) + ["beta"]]
         if g.get("_interactive"):
-            out += [[p["name"], p["version"], r, c, False, [], False, "ask:" + sc] for p in g["products"] for r in (False, True)
-                    for c in (False, True) for sc in ("q", "nnnnq", "!q", "ynq", "nyq", "eq", "neq", "xyxnq", "yn!q")]
+            out += [[p["name"], p["version"], True, c, False, [], False, "ask:" + sc] for p in g["products"]
+                    for c in (False, True) for sc in ("nnnnq", "ynq", "nyq", "neq", "xyxnq", "yn!q")]
         return sorted(out, key=repr)
     rng.shuffle(allc)
     out = allc[:per_graph]
@@ -605,16 +605,18 @@ def run(ctx):
         evaluate_histories(ctx, ch)
     # exhaustive small family (C13's, two candidate lines per table: 256 graphs), every target and flag combination
     total = c13.enum_count(2)
-    ids = [(ctx.seed * 97 + k * 37) % total for k in range(6)]
+    ids = [(ctx.seed * 97 + k * 37) % total for k in range(3)]
     evaluate(ctx, [c13.enum_graph(i, 2) for i in ids], all_cases=True)
     n = 45
     done = 0
-    soft = (lambda: time.time() - ctx.t0 > 90) if not big else (lambda: False)
-    while done < n and not ctx.out_of_time() and not soft():       # a loaded machine: fewer cases rather than a late verdict
+    t_run = time.time()
+    # a loaded machine: fewer cases rather than a late verdict — but never fewer than 30 generated graphs (the floors)
+    soft = (lambda: done >= 30 and time.time() - t_run > 70) if not big else (lambda: False)
+    while done < n and not ctx.out_of_time() and not soft():
         k = min(15, n - done)
-        evaluate(ctx, [gen_graph(ctx.rng, wide=ctx.tier == "thorough") for _ in range(k)])
+        evaluate(ctx, [gen_graph(ctx.rng, wide=ctx.tier == "thorough") for _ in range(k)], per_graph=14)
         done += k
-    hg = [gen_graph(ctx.rng) for _ in range(24)] + [c13.enum_graph(i, 2) for i in ids]
+    hg = [gen_graph(ctx.rng) for _ in range(24)] + [c13.enum_graph(i, 2) for i in ids + [(ids[0] + 11) % total, (ids[0] + 23) % total, (ids[0] + 57) % total]]
     evaluate_histories(ctx, hg)
     if ctx.evaluations and ctx.distinct_nontrivial < ctx.evaluations * 0.3:
         raise common.InfraError("degenerate distribution: %d non-trivial of %d" % (ctx.distinct_nontrivial, ctx.evaluations))
@@ -622,6 +624,8 @@ def run(ctx):
     for need in ("history:refused_after_declare", "history:refused_only_because_of_the_new_user"):
         if not h.get(need):
             raise common.InfraError("degenerate distribution: no case with %s" % need)
+    if done < 30 and not ctx.out_of_time():
+        raise common.InfraError("only %d generated graphs were evaluated" % done)
     if done >= 30:
         for need in FLOORS:
             if not h.get(need):
